@@ -185,151 +185,236 @@ Theorem explicit_entry (t : tree) cwd target_dir p :
 Proof. intros H. unfold expand_one. rewrite H. reflexivity. Qed.
 
 (* ---------- the recursive walk ---------- *)
-Definition walk_entry (pre : path) (e : name * tree) : name * list path :=
-  (fst e, if skip_name (fst e) then []
-          else match snd e with
-               | File _ _ => if is_py (fst e) then [pre ++ [fst e]] else []
-               | Dir _ _ => walk C (pre ++ [fst e]) (snd e)
-               end).
+(* a .py file below a directory: every component is an entry that is not skipped; the intermediate
+   ones are directories and the last one a regular file AFTER following symbolic links (os.stat) *)
+Inductive reach (t : tree) : path -> path -> Prop :=
+| reach_file pre d es n d' c :
+    stat C t pre = Some (Dir d es) -> In n (map fst es) -> skip_name n = false ->
+    stat C t (pre ++ [n]) = Some (File d' c) -> is_py n = true -> reach t pre [n]
+| reach_dir pre d es n d' es' rel :
+    stat C t pre = Some (Dir d es) -> In n (map fst es) -> skip_name n = false ->
+    stat C t (pre ++ [n]) = Some (Dir d' es') -> reach t (pre ++ [n]) rel -> reach t pre (n :: rel).
 
-Lemma walk_dir pre d es :
-  walk C pre (Dir d es) = List.concat (map snd (isort entry_leb (map (walk_entry pre) es))).
+Definition entry_result (rec : path -> option (list path)) (t : tree) (pre : path) (n : name)
+  : option (list path) :=
+  if skip_name n then Some []
+  else match stat C t (pre ++ [n]) with
+       | Some (File _ _) => Some (if is_py n then [pre ++ [n]] else [])
+       | Some (Dir _ _) => rec (pre ++ [n])
+       | _ => Some []
+       end.
+
+Lemma collect_In rec (t : tree) pre names : forall l f,
+  collect C rec t pre names = Some l ->
+  (In f l <-> exists n a, In n names /\ entry_result rec t pre n = Some a /\ In f a).
 Proof.
-  cbn [walk]. do 3 f_equal.
-  induction es as [|[n sub] r IH]; [reflexivity|].
-  rewrite IH. reflexivity.
+  induction names as [|n r IH]; intros l f H.
+  - simpl in H. inversion H; subst. split; [intros []|intros [n [a [[] _]]]].
+  - cbn [collect] in H.
+    assert (EQ : (if skip_name n then Some []
+                  else match stat C t (pre ++ [n]) with
+                       | Some (File _ _) => Some (if is_py n then [pre ++ [n]] else [])
+                       | Some (Dir _ _) => rec (pre ++ [n])
+                       | _ => Some []
+                       end) = entry_result rec t pre n) by reflexivity.
+    rewrite EQ in H. clear EQ.
+    destruct (entry_result rec t pre n) as [a|] eqn:E; [|discriminate].
+    destruct (collect C rec t pre r) as [b|] eqn:E2; [|discriminate].
+    inversion H; subst. rewrite in_app_iff, (IH b f eq_refl). split.
+    + intros [I|[m [a' [I [E' I']]]]].
+      * exists n, a. simpl. auto.
+      * exists m, a'. simpl. auto.
+    + intros [m [a' [[I|I] [E' I']]]].
+      * subst m. rewrite E in E'. inversion E'; subst. auto.
+      * right. exists m, a'. auto.
 Qed.
 
-(* a .py file below a directory through entries none of which is skipped *)
-Inductive reach : tree -> path -> Prop :=
-| reach_file dv es n d c :
-    In (n, File d c) es -> skip_name n = false -> is_py n = true -> reach (Dir dv es) [n]
-| reach_dir dv es n d' es' rel :
-    In (n, Dir d' es') es -> skip_name n = false -> reach (Dir d' es') rel -> reach (Dir dv es) (n :: rel).
-
-Fixpoint tree_ind' (P : tree -> Prop)
-         (HF : forall d c, P (File d c))
-         (HD : forall d es, Forall (fun e => P (snd e)) es -> P (Dir d es))
-         (t : tree) {struct t} : P t :=
-  match t with
-  | File d c => HF d c
-  | Dir d es =>
-      HD d es ((fix go (es : list (name * tree)) : Forall (fun e => P (snd e)) es :=
-                  match es with
-                  | [] => Forall_nil _
-                  | e :: r => Forall_cons e (tree_ind' P HF HD (snd e)) (go r)
-                  end) es)
-  end.
-
-Theorem walk_spec (t : tree) : forall d es pre f,
-  t = Dir d es ->
-  (In f (walk C pre t) <-> exists rel, f = pre ++ rel /\ reach t rel).
+Lemma collect_none rec (t : tree) pre names n :
+  In n names -> entry_result rec t pre n = None -> collect C rec t pre names = None.
 Proof.
-  induction t as [d0 c|d0 es0 IH] using tree_ind'; intros d es pre f E; [discriminate|].
-  inversion E; subst d0 es0. clear E. rewrite walk_dir. rewrite in_concat. split.
-  - intros [l [Hl Hf]]. apply in_map_iff in Hl as [[n l'] [El Hl]]. simpl in El. subst l'.
-    apply isort_In in Hl. apply in_map_iff in Hl as [[n' sub] [Ee He]].
-    unfold walk_entry in Ee. simpl in Ee. inversion Ee; subst n'. clear Ee. subst l.
-    destruct (skip_name n) eqn:SK; [destruct Hf|].
-    destruct sub as [d' c|d' es'].
-    + destruct (is_py n) eqn:PY; [|destruct Hf]. destruct Hf as [Hf|[]]. subst f.
+  induction names as [|m r IH]; intros I E; [destruct I|].
+  cbn [collect].
+  assert (EQ : (if skip_name m then Some []
+                else match stat C t (pre ++ [m]) with
+                     | Some (File _ _) => Some (if is_py m then [pre ++ [m]] else [])
+                     | Some (Dir _ _) => rec (pre ++ [m])
+                     | _ => Some []
+                     end) = entry_result rec t pre m) by reflexivity.
+  rewrite EQ. clear EQ. destruct I as [I|I].
+  - subst m. rewrite E. reflexivity.
+  - rewrite (IH I E). destruct (entry_result rec t pre m); reflexivity.
+Qed.
+
+Theorem walk_spec (t : tree) fuel : forall pre l f,
+  walk C fuel t pre = Some l ->
+  (In f l <-> exists rel, f = pre ++ rel /\ reach t pre rel).
+Proof.
+  induction fuel as [|fu IH]; intros pre l f H; [discriminate|].
+  cbn [walk] in H. destruct (stat C t pre) as [[d c|d es|tg]|] eqn:ST;
+    try (inversion H; subst; split; [intros []|intros [rel [_ R]]; inversion R; congruence]).
+  rewrite (collect_In _ t pre _ l f H). split.
+  - intros [n [a [I [E I']]]]. apply isort_In in I. unfold entry_result in E.
+    destruct (skip_name n) eqn:SK; [inversion E; subst; destruct I'|].
+    destruct (stat C t (pre ++ [n])) as [[d' c|d' es'|tg]|] eqn:ST2;
+      try (inversion E; subst; destruct I').
+    + destruct (is_py n) eqn:PY; inversion E; subst; [|destruct I']. destruct I' as [I'|[]]. subst f.
       exists [n]. split; auto. eapply reach_file; eauto.
-    + rewrite Forall_forall in IH. specialize (IH _ He). simpl in IH.
-      apply (IH d' es' (pre ++ [n]) f eq_refl) in Hf as [rel [Ef R]].
-      exists (n :: rel). split.
+    + apply (IH _ _ f E) in I' as [rel [Ef R]]. exists (n :: rel). split.
       * rewrite Ef, <- app_assoc. reflexivity.
       * eapply reach_dir; eauto.
-  - intros [rel [Ef R]]. inversion R as [dv es1 n d' c I SK PY|dv es1 n d' es' rel' I SK R']; subst.
-    + exists [pre ++ [n]]. split; [|left; reflexivity].
-      apply in_map_iff. exists (n, [pre ++ [n]]). split; auto. apply isort_In.
-      apply in_map_iff. exists (n, File d' c). split; auto.
-      unfold walk_entry. simpl. rewrite SK, PY. reflexivity.
-    + exists (walk C (pre ++ [n]) (Dir d' es')). split.
-      * apply in_map_iff. exists (n, walk C (pre ++ [n]) (Dir d' es')). split; auto. apply isort_In.
-        apply in_map_iff. exists (n, Dir d' es'). split; auto.
-        unfold walk_entry. simpl. rewrite SK. reflexivity.
-      * rewrite Forall_forall in IH. specialize (IH _ I). simpl in IH.
-        apply (IH d' es' (pre ++ [n]) _ eq_refl). exists rel'. split; auto.
-        rewrite <- app_assoc. reflexivity.
+  - intros [rel [Ef R]]. inversion R as [pre' d0 es0 n d' c ST0 I SK ST2 PY|pre' d0 es0 n d' es' rel' ST0 I SK ST2 R']; subst.
+    + rewrite ST in ST0. inversion ST0; subst. exists n, [pre ++ [n]]. split; [apply isort_In; exact I|].
+      split; [|left; reflexivity]. unfold entry_result. rewrite SK, ST2, PY. reflexivity.
+    + rewrite ST in ST0. inversion ST0; subst.
+      destruct (walk C fu t (pre ++ [n])) as [a|] eqn:W.
+      * exists n, a. split; [apply isort_In; exact I|]. split.
+        -- unfold entry_result. rewrite SK, ST2. exact W.
+        -- apply (IH _ _ _ W). exists rel'. split; auto. rewrite <- app_assoc. reflexivity.
+      * (* the sub-walk ran out of fuel: then the whole collect is None, contradiction with H *)
+        exfalso.
+        assert (EN : entry_result (walk C fu t) t pre n = None)
+          by (unfold entry_result; rewrite SK, ST2; exact W).
+        rewrite (collect_none (walk C fu t) t pre _ n (proj2 (isort_In str_leb _ n) I) EN) in H.
+        discriminate.
 Qed.
 
-(* an entry named on the path: a file is taken whatever its name; a directory is walked whatever its
-   name (".pyflyby" is hidden!) - the skipping applies only below it *)
+(* an entry named on the path: a file (or a link to one) is taken whatever its name; a directory (or
+   a link to one) is walked whatever its name (".pyflyby" is hidden!) - skipping applies only below it;
+   anything else (missing, dangling or looping link) is ignored *)
 Theorem named_file_taken (t : tree) p d c :
-  lookup C t p = Some (File d c) -> expand_arg C t p = [p].
+  stat C t p = Some (File d c) -> expand_arg C t p = Some [p].
 Proof. intros H. unfold expand_arg. rewrite H. reflexivity. Qed.
 
-Theorem named_dir_walked (t : tree) p d es f :
-  lookup C t p = Some (Dir d es) ->
-  (In f (expand_arg C t p) <-> exists rel, f = p ++ rel /\ reach (Dir d es) rel).
-Proof. intros H. unfold expand_arg. rewrite H. apply (walk_spec (Dir d es) d es p f eq_refl). Qed.
+Theorem named_dir_walked (t : tree) p d es l f :
+  stat C t p = Some (Dir d es) -> expand_arg C t p = Some l ->
+  (In f l <-> exists rel, f = p ++ rel /\ reach t p rel).
+Proof. intros H. unfold expand_arg. rewrite H. apply walk_spec. Qed.
 
-Theorem missing_entry_ignored (t : tree) p : lookup C t p = None -> expand_arg C t p = [].
+Theorem missing_entry_ignored (t : tree) p : stat C t p = None -> expand_arg C t p = Some [].
 Proof. intros H. unfold expand_arg. rewrite H. reflexivity. Qed.
 
 (* nothing hidden, no __pycache__, nothing with an unsafe name, and only *.py below a named directory *)
-Lemma reach_names (t : tree) rel :
-  reach t rel -> Forall (fun n => skip_name n = false) rel /\ is_py (last rel []) = true /\ rel <> [].
+Lemma reach_names (t : tree) pre rel :
+  reach t pre rel -> Forall (fun n => skip_name n = false) rel /\ is_py (last rel []) = true /\ rel <> [].
 Proof.
-  induction 1 as [dv es n d c I SK PY|dv es n d' es' rel I SK R [IH1 [IH2 IH3]]].
+  induction 1 as [pre d es n d' c ST I SK ST2 PY|pre d es n d' es' rel ST I SK ST2 R [IH1 [IH2 IH3]]].
   - repeat split; auto. discriminate.
   - repeat split; auto; try discriminate. destruct rel; [contradiction|exact IH2].
 Qed.
 
-(* with unique names in every directory (a real file system), "reachable through entries" is the
-   same as "is a regular file at that relative path" *)
-Inductive uniq : tree -> Prop :=
-| uniq_file d c : uniq (File d c)
-| uniq_dir d es : NoDup (map fst es) -> (forall n s, In (n, s) es -> uniq s) -> uniq (Dir d es).
+(* ---------- symbolic links: the resolver ---------- *)
+(* a path is Clean when it has no "", "." or ".." component and no prefix of it is a symbolic link:
+   what os.path.realpath returns *)
+Definition plain_name (n : name) : Prop :=
+  is_nil n || str_eqb n s_dot = false /\ str_eqb n s_dotdot = false.
+Definition not_link (o : option tree) : Prop := match o with Some (Link _) => False | _ => True end.
+Inductive Clean (t : tree) : path -> Prop :=
+| Clean_nil : Clean t []
+| Clean_snoc cur n : Clean t cur -> plain_name n -> not_link (lookup C t (cur ++ [n])) -> Clean t (cur ++ [n]).
 
-Lemma assoc_name_sound {B} n (es : list (name * B)) s : assoc_name n es = Some s -> In (n, s) es.
+Lemma Clean_snoc_inv (t : tree) cur n :
+  Clean t (cur ++ [n]) -> Clean t cur /\ plain_name n /\ not_link (lookup C t (cur ++ [n])).
 Proof.
-  induction es as [|[m v] r IH]; simpl; [discriminate|].
-  destruct (str_eqb n m) eqn:E.
-  - apply str_eqb_eq in E. subst. intros H. inversion H. auto.
-  - auto.
+  intros H. remember (cur ++ [n]) as p eqn:E. destruct H as [|c m H1 H2 H3].
+  - destruct cur; discriminate.
+  - apply app_inj_tail in E as [E1 E2]. subst. auto.
 Qed.
 
-Lemma assoc_name_complete {B} n (es : list (name * B)) s :
-  NoDup (map fst es) -> In (n, s) es -> assoc_name n es = Some s.
+Lemma Clean_prefix (t : tree) a b : Clean t (a ++ b) -> Clean t a.
 Proof.
-  induction es as [|[m v] r IH]; simpl; intros ND I; [destruct I|].
-  inversion ND as [|? ? NI ND']; subst. destruct I as [I|I].
-  - inversion I; subst. rewrite str_eqb_refl. reflexivity.
-  - destruct (str_eqb n m) eqn:E.
-    + apply str_eqb_eq in E. subst. exfalso. apply NI. apply in_map_iff. exists (m, s). auto.
-    + auto.
+  induction b as [|m b IH] using rev_ind; [rewrite app_nil_r; auto|].
+  rewrite app_assoc. intros H. apply Clean_snoc_inv in H as [H _]. auto.
 Qed.
 
-Theorem reach_is_lookup : forall rel (t : tree),
-  uniq t ->
-  (reach t rel <->
-   (exists d es, t = Dir d es) /\ rel <> [] /\ (exists d c, lookup C t rel = Some (File d c)) /\
-   Forall (fun n => skip_name n = false) rel /\ is_py (last rel []) = true).
+Lemma Clean_removelast (t : tree) cur : Clean t cur -> Clean t (removelast cur).
 Proof.
-  induction rel as [|n r IH]; intros t U.
-  - split.
-    + intros R. inversion R.
-    + intros [_ [N _]]. contradiction.
-  - split.
-    + intros R. inversion R as [dv es n' d c I SK PY|dv es n' d' es' rel' I SK R']; subst.
-      * inversion U as [|? ? ND US]; subst.
-        repeat split; eauto; try discriminate.
-        exists d, c. simpl. rewrite (assoc_name_complete _ _ _ ND I). reflexivity.
-      * inversion U as [|? ? ND US]; subst.
-        pose proof (US _ _ I) as U'. apply (IH _ U') in R' as [_ [NE [[d [c L]] [FA PY]]]].
-        repeat split; eauto; try discriminate.
-        -- exists d, c. simpl. rewrite (assoc_name_complete _ _ _ ND I). exact L.
-        -- destruct r; [contradiction|exact PY].
-    + intros [[d0 [es E]] [_ [[d [c L]] [FA PY]]]]. subst t.
-      inversion U as [|? ? ND US]; subst. inversion FA as [|? ? SK FA']; subst.
-      simpl in L. destruct (assoc_name n es) as [s|] eqn:AS; [|discriminate].
-      apply assoc_name_sound in AS.
-      destruct r as [|n2 r2].
-      * simpl in L. inversion L; subst. eapply reach_file; eauto.
-      * destruct s as [d' c'|d' es']; [simpl in L; discriminate|].
-        eapply reach_dir; eauto. apply IH; [eapply US; eauto|].
-        repeat split; eauto; try discriminate.
+  intros H. destruct H as [|c m H1 H2 H3]; [constructor|]. rewrite removelast_last. exact H1.
 Qed.
+
+(* whatever the resolver returns is Clean *)
+Lemma resolve_Clean (t : tree) strict fuel : forall cur rest r,
+  Clean t cur -> resolve C strict fuel t cur rest = Some r -> Clean t r.
+Proof.
+  induction fuel as [|f IH]; intros cur rest r HC H; [discriminate|].
+  revert cur HC H. induction rest as [|n rs IHr]; intros cur HC H.
+  - simpl in H. inversion H; subst. exact HC.
+  - cbn [resolve] in H. cbn [resolve] in IHr.
+    destruct (is_nil n || str_eqb n s_dot) eqn:E1; [apply (IHr _ HC H)|].
+    destruct (str_eqb n s_dotdot) eqn:E2; [apply (IHr _ (Clean_removelast t cur HC) H)|].
+    destruct (lookup C t (cur ++ [n])) as [[d c|d es|tg]|] eqn:L.
+    + apply (IHr (cur ++ [n])); auto. constructor; auto; [split; auto|rewrite L; exact I].
+    + apply (IHr (cur ++ [n])); auto. constructor; auto; [split; auto|rewrite L; exact I].
+    + apply (IH _ _ _ (if starts_with s_slash tg as b return Clean t (if b then [] else cur) then Clean_nil t else HC) H).
+    + destruct strict; [discriminate|].
+      apply (IHr (cur ++ [n])); auto. constructor; auto; [split; auto|rewrite L; exact I].
+Qed.
+
+(* a Clean path resolves to itself (realpath is idempotent) ... *)
+Lemma resolve_Clean_id (t : tree) f : forall rest cur,
+  Clean t (cur ++ rest) -> resolve C false (S f) t cur rest = Some (cur ++ rest).
+Proof.
+  induction rest as [|n rs IH]; intros cur HC.
+  - rewrite app_nil_r. reflexivity.
+  - assert (HC' := HC). replace (cur ++ n :: rs) with ((cur ++ [n]) ++ rs) in HC' by (rewrite <- app_assoc; reflexivity).
+    pose proof (Clean_prefix t _ _ HC') as HP. apply Clean_snoc_inv in HP as [_ [[P1 P2] NL]].
+    cbn [resolve]. cbn [resolve] in IH. rewrite P1, P2.
+    destruct (lookup C t (cur ++ [n])) as [[d c|d es|tg]|] eqn:L; try (destruct NL);
+      rewrite (IH (cur ++ [n]) HC'), <- app_assoc; reflexivity.
+Qed.
+
+Lemma lookup_prefix_some : forall a (t : tree) b x,
+  lookup C t (a ++ b) = Some x -> exists y, lookup C t a = Some y.
+Proof.
+  induction a as [|n a IH]; intros t b x H; [exists t; reflexivity|].
+  simpl in H |- *. destruct t as [d c|d es|tg]; try discriminate.
+  destruct (assoc_name n es) as [s|]; [|discriminate]. eapply IH; eauto.
+Qed.
+
+(* ... also for os.stat, when it exists *)
+Lemma resolve_Clean_id_strict (t : tree) f : forall rest cur x,
+  Clean t (cur ++ rest) -> lookup C t (cur ++ rest) = Some x ->
+  resolve C true (S f) t cur rest = Some (cur ++ rest).
+Proof.
+  induction rest as [|n rs IH]; intros cur x HC LK.
+  - rewrite app_nil_r. reflexivity.
+  - assert (HC' := HC). replace (cur ++ n :: rs) with ((cur ++ [n]) ++ rs) in HC', LK by (rewrite <- app_assoc; reflexivity).
+    pose proof (Clean_prefix t _ _ HC') as HP. apply Clean_snoc_inv in HP as [_ [[P1 P2] NL]].
+    destruct (lookup_prefix_some _ _ _ _ LK) as [y Ly].
+    cbn [resolve]. cbn [resolve] in IH. rewrite P1, P2, Ly. rewrite Ly in NL.
+    destruct y as [d c|d es|tg]; try (destruct NL);
+      rewrite (IH (cur ++ [n]) x HC' LK), <- app_assoc; reflexivity.
+Qed.
+
+(* what os.stat resolves, os.path.realpath resolves to the same place *)
+Lemma resolve_strict_nonstrict (t : tree) fuel : forall cur rest r,
+  resolve C true fuel t cur rest = Some r -> resolve C false fuel t cur rest = Some r.
+Proof.
+  induction fuel as [|f IH]; intros cur rest r H; [discriminate|].
+  revert cur H. induction rest as [|n rs IHr]; intros cur H; [exact H|].
+  cbn [resolve] in H |- *. cbn [resolve] in IHr.
+  destruct (is_nil n || str_eqb n s_dot); [apply IHr; exact H|].
+  destruct (str_eqb n s_dotdot); [apply IHr; exact H|].
+  destruct (lookup C t (cur ++ [n])) as [[d c|d es|tg]|]; try (apply IHr; exact H).
+  - apply IH. exact H.
+  - discriminate.
+Qed.
+
+(* the real path of an existing directory is an existing directory and its own real path:
+   this is what makes the second (1, realpath, ...) cache key of get_default sound *)
+Theorem realpath_of_dir (t : tree) p :
+  isdir C t p = true ->
+  exists r, realpath C t p = Some r /\ isdir C t r = true /\ realpath C t r = Some r.
+Proof.
+  unfold isdir, stat, realpath, max_links. intros H.
+  destruct (resolve C true 40 t [] p) as [r|] eqn:R; [|discriminate].
+  pose proof (resolve_Clean t true 40 [] p r (Clean_nil t) R) as HC.
+  exists r. split; [apply resolve_strict_nonstrict; exact R|].
+  destruct (lookup C t r) as [x|] eqn:L; [|discriminate].
+  rewrite (resolve_Clean_id_strict t 39 r [] x HC L). simpl app. rewrite L.
+  split; [exact H|]. apply (resolve_Clean_id t 39 r [] HC).
+Qed.
+
+Theorem realpath_clean (t : tree) p r : realpath C t p = Some r -> Clean t r.
+Proof. apply resolve_Clean. constructor. Qed.
 
 End PathSem.
